@@ -60,6 +60,7 @@ fn main() {
     let scratch = common::scratch_base();
     std::env::set_var("TMPDIR", &scratch);
     let started = Instant::now();
+    common::set_context(&args, started);
     let report = match id.as_str() {
         "C01" => props_e1::c01(&args),
         "C02" => props_e1::c02(&args),
